@@ -404,19 +404,40 @@ impl BoxClient {
                     }
                     out.push(it.size_hint().0 as u32);
                     out.push((&mut it).nth(1).unwrap_or(9999));
+                    out.push((&mut it).nth_back(1).unwrap_or(9999));
+                    out.push(it.size_hint().1.map(|h| h as u32).unwrap_or(9998));
+                    out.push((&mut it).rev().nth(*front as usize % 3).unwrap_or(9999));
                     out.extend(it);
                     out
                 };
+                let (skip, skip_back) = (*front as usize % 4, *back as usize % 4);
                 ok2(
                     b_call(|| {
                         let mut b = BBox::new_in(0..n, bump);
                         let l = b.len();
-                        Ret::Text(format!("{:?}", run(&mut b, l)))
+                        let r = run(&mut b, l);
+                        // the consuming adaptors, each on a fresh boxed iterator
+                        let whole = (
+                            BBox::new_in(0..n, bump).last(),
+                            BBox::new_in(0..n, bump).count(),
+                            BBox::new_in(0..n, bump).skip(skip).rev().nth(skip_back),
+                            BBox::new_in((0..n).filter(|x| x % 3 != 0), bump).size_hint(),
+                            BBox::new_in(0..n, bump).fold(0u64, |a, x| a * 3 + x as u64),
+                        );
+                        Ret::Text(format!("{:?} {:?}", r, whole))
                     }),
                     s_call(|| {
                         let mut b = Box::new(0..n);
                         let l = b.len();
-                        Ret::Text(format!("{:?}", run(&mut b, l)))
+                        let r = run(&mut b, l);
+                        let whole = (
+                            Box::new(0..n).last(),
+                            Box::new(0..n).count(),
+                            Box::new(0..n).skip(skip).rev().nth(skip_back),
+                            Box::new((0..n).filter(|x| x % 3 != 0)).size_hint(),
+                            Box::new(0..n).fold(0u64, |a, x| a * 3 + x as u64),
+                        );
+                        Ret::Text(format!("{:?} {:?}", r, whole))
                     }),
                 )
             }
